@@ -669,6 +669,15 @@ class SymMode(TorchDispatchMode):
         for o in oflat:
             if isinstance(o, torch.Tensor):
                 self.clear(o)
+        if getattr(ctx, 'havoc_rand', False) and name in ('aten.rand.default', 'aten.rand.generator') and isinstance(out, torch.Tensor) and out.numel():
+            # (harness option) randomness as a nondeterministic stub: uniform draws are ARBITRARY values of their documented range [0, 1)
+            vs = [ctx.fresh('rand') for _ in range(out.numel())]
+            ctx.assume += [z3.And(v >= 0, v < 1) for v in vs]
+            for v, c_ in zip(vs, self.concrete_vals(out)):
+                ctx.env[str(v)] = float(c_)
+            self.write(out, vs)
+            ctx.stubs.add('torch.rand: arbitrary values in [0, 1) (nondeterministic stub)')
+            return out
         if name.split('.')[1].endswith('_') and tens:
             self.clear(tens[0])
         return out
@@ -1315,10 +1324,17 @@ def _cumsum(m, func, args, kwargs):
         ids = torch.arange(x.numel()).view(x.shape).movedim(dim, -1).reshape(-1, x.shape[dim]).tolist()
         pos = torch.arange(x.numel()).view(x.shape).movedim(dim, -1).reshape(-1).tolist()
     res = [None] * x.numel()
+    rnd = m.ctx.round_u is not None and out.dtype.is_floating_point
     for row in ids:
         acc = z3.RealVal(0)
-        for i in row:
+        for k_, i in enumerate(row):
             acc = simp(acc + ft[i])
+            if rnd and k_ > 0:
+                # rounding mode: every partial sum carries its own relative error (standard model; the order of summation is the
+                # kernel's business, any order satisfies a bound of this form per addition)
+                dlt = m.ctx.fresh('delta')
+                m.ctx.deltas.append(dlt)
+                acc = acc * (1 + dlt)
             res[i] = acc
     m.write(out, res)
     return out
@@ -1342,6 +1358,10 @@ def _softmax(m, func, args, kwargs):
         tot = simp(z3.Sum(es)) if len(es) > 1 else es[0]
         for i, e in zip(row, es):
             res[i] = simp(ft[i] - m.ctx.tfun('log', tot)) if islog else simp(e / tot)
+            if m.ctx.round_u is not None:
+                dlt = m.ctx.fresh('delta')
+                m.ctx.deltas.append(dlt)
+                res[i] = res[i] * (1 + dlt)
     m.write(out, res)
     return out
 
